@@ -223,10 +223,10 @@ def exitstack_flavours(rep, rng, tier):
                 for i, (kind, beh) in enumerate(spec):
                     flv = fl if fl != "mixed" else CALL_FLAVOURS[(i + len(spec)) % len(CALL_FLAVOURS)]
                     f = mk(i, kind, beh, flv)
-                    if kind == "push":
-                        st.push(f)
-                    else:
-                        st.callback(f)
+                    # both hand their argument back unchanged, whatever its flavour (they are usable as decorators)
+                    got = st.push(f) if kind == "push" else st.callback(f)
+                    if got is not f:
+                        return ("registration of a %s callable returned %s instead of its argument" % (flv, type(got).__name__),)
                 try:
                     async with st:
                         if block is not None:
